@@ -76,6 +76,45 @@ class _Subst(ast.NodeTransformer):
 
     visit_Lambda = visit_FunctionDef
 
+    def visit_ExceptHandler(self, n):
+        if n.name in self.mapping and isinstance(self.mapping[n.name], ast.Name):
+            n.name = self.mapping[n.name].id
+        self.generic_visit(n)
+        return n
+
+
+class _GiveUp(Exception):
+    pass
+
+
+def _has_return(node):
+    return any(isinstance(x, ast.Return) for x in ast.walk(node))
+
+
+def _single_exit(stmts, make_assign):
+    """Rewrite a guard-return style block into single-exit form: every `return e` becomes make_assign(e) and the statements
+    after a returning `if` move into the branches that fall through. Returns (statements, terminated)."""
+    out = []
+    for i, s in enumerate(stmts):
+        if isinstance(s, ast.Return):
+            out.append(make_assign(s.value))
+            return out, True
+        if isinstance(s, ast.If) and _has_return(s):
+            body, tb = _single_exit(s.body, make_assign)
+            orelse, te = _single_exit(s.orelse, make_assign)
+            if tb and te:
+                out.append(ast.If(test=s.test, body=body, orelse=orelse))
+                return out, True
+            rest, tr = _single_exit(stmts[i + 1:], make_assign)
+            new_body = body if tb else body + copy.deepcopy(rest)
+            new_else = orelse if te else orelse + rest
+            out.append(ast.If(test=s.test, body=new_body or [ast.Pass()], orelse=new_else))
+            return out, tr
+        if isinstance(s, (ast.For, ast.While, ast.Try, ast.With, ast.AsyncWith, ast.AsyncFor)) and _has_return(s):
+            raise _GiveUp()
+        out.append(s)
+    return out, False
+
 
 def _simple(e):
     while isinstance(e, ast.Attribute):
@@ -193,8 +232,15 @@ class Inliner:
         rets = [r for r in rets if id(r) not in nested]
         last_is_ret = bool(body) and isinstance(body[-1], ast.Return)
         single_tail = len(rets) == 1 and last_is_ret
-        if position != 'return' and not (single_tail or not rets):
-            return None
+        tails = _tail_returns(body)
+        all_tail = bool(rets) and {id(r) for r in rets} == {id(r) for r in tails}
+        guard_style = False
+        if position != 'return' and not (single_tail or not rets or all_tail):
+            try:
+                probe, _t = _single_exit(copy.deepcopy(body), lambda v: ast.Pass())
+                guard_style = True
+            except _GiveUp:
+                return None
         k = next(_counter)
         pre = []
         mapping = {}
@@ -212,7 +258,29 @@ class Inliner:
         for s in body:
             s = _Subst(mapping).visit(s)
             new_body.append(s)
-        if position == 'assign' and single_tail:
+        if guard_style:
+            def mk(v):
+                if position == 'assign':
+                    return ast.Assign(targets=copy.deepcopy(targets), value=v or ast.Constant(None))
+                return ast.Expr(value=v) if v is not None else ast.Pass()
+            new_body, term = _single_exit(new_body, mk)
+            if not term and position == 'assign':
+                new_body.append(ast.Assign(targets=copy.deepcopy(targets), value=ast.Constant(None)))
+        elif position in ('assign', 'expr') and all_tail and not single_tail:
+            tail_ids = {id(r) for r in _tail_returns(new_body)}
+
+            class R(ast.NodeTransformer):
+                def visit_FunctionDef(self, n):
+                    return n
+
+                def visit_Return(self, r):
+                    if id(r) not in tail_ids:
+                        return r
+                    if position == 'assign':
+                        return ast.Assign(targets=copy.deepcopy(targets), value=r.value or ast.Constant(None))
+                    return ast.Expr(value=r.value) if r.value is not None else ast.Pass()
+            new_body = [R().visit(s) for s in new_body]
+        elif position == 'assign' and single_tail:
             r = new_body[-1]
             new_body[-1] = ast.Assign(targets=copy.deepcopy(targets), value=r.value)
         elif position == 'expr' and single_tail:
@@ -278,6 +346,25 @@ class Inliner:
         _link(root, self.m, getattr(self.orig, '_parent', None), self.orig._qual)
         root._inlined = True
         return root
+
+
+def _tail_returns(stmts):
+    """Return statements in tail position of a statement list (after them control reaches the end of the list anyway)."""
+    if not stmts:
+        return []
+    last = stmts[-1]
+    if isinstance(last, ast.Return):
+        return [last]
+    if isinstance(last, ast.If):
+        return _tail_returns(last.body) + _tail_returns(last.orelse)
+    if isinstance(last, (ast.With, ast.AsyncWith)):
+        return _tail_returns(last.body)
+    if isinstance(last, ast.Try):
+        out = _tail_returns(last.orelse) if last.orelse else _tail_returns(last.body)
+        for h in last.handlers:
+            out += _tail_returns(h.body)
+        return out
+    return []
 
 
 def _renumber(root, base):
